@@ -157,7 +157,8 @@ def packed_tensor_rules(chk):
             continue
         n += 1
         e = p.end[1]
-        et = U(e).replace("torch.utils._pytree.", "pytree.")
+        from ..core import CanonStr
+        et = CanonStr(U(e).replace("torch.utils._pytree.", "pytree."))
         if et.startswith("PackedTensor("):
             a = [U(x) for x in e.args]
             t0 = f"{args}[0]"
